@@ -13,6 +13,8 @@ print("|---|---|---|---|")
 for f in sorted(glob.glob(os.path.join(root, "seeded", "*", "meta.json"))):
     m = json.load(open(f))
     caught = "yes" if m.get("caught_by_check") else "NO"
+    if m.get("caught_by"):
+        caught = "yes - by " + m["caught_by"]
     if m.get("obsolete_after"):
         caught = "obsolete: no longer breaks the property after " + m["obsolete_after"].split(":")[0] + " (was caught before)"
     if m.get("history"):
